@@ -188,7 +188,9 @@ class PatchedAddZ1:
     def __enter__(self):
         import inspect, textwrap
         from register_crypto_plugin.ecdsa import ellipticcurve as ec
-        self.ec, self.orig, self.active = ec, ec.PointJacobi.__dict__["_add_with_z_1"], False
+        self.ec, self.orig, self.active = ec, ec.PointJacobi.__dict__.get("_add_with_z_1"), False
+        if self.orig is None:
+            return self                     # the helper has another name now: nothing to attribute (never an alarm by itself)
         try:
             src = textwrap.dedent(inspect.getsource(self.orig))
         except (OSError, TypeError):
@@ -203,7 +205,8 @@ class PatchedAddZ1:
         return self
 
     def __exit__(self, *a):
-        self.ec.PointJacobi._add_with_z_1 = self.orig
+        if self.active:
+            self.ec.PointJacobi._add_with_z_1 = self.orig
 
 
 def _record_tiny(name, tier, r):
